@@ -45,7 +45,7 @@ func conversionCollectionToList(ety cty.Type, conv conversion) conversion {
 			}
 
 			if val.IsNull() {
-				val = cty.NullVal(val.Type().WithoutOptionalAttributesDeep())
+				val = cty.NullVal(val.Type().WithoutOptionalAttributesDeep()).WithSameMarks(val)
 			}
 
 			elems = append(elems, val)
@@ -99,7 +99,7 @@ func conversionCollectionToSet(ety cty.Type, conv conversion) conversion {
 			}
 
 			if val.IsNull() {
-				val = cty.NullVal(val.Type().WithoutOptionalAttributesDeep())
+				val = cty.NullVal(val.Type().WithoutOptionalAttributesDeep()).WithSameMarks(val)
 			}
 
 			elems = append(elems, val)
@@ -258,7 +258,7 @@ func conversionTupleToSet(tupleType cty.Type, setEty cty.Type, unsafe bool) conv
 			}
 
 			if val.IsNull() {
-				val = cty.NullVal(val.Type().WithoutOptionalAttributesDeep())
+				val = cty.NullVal(val.Type().WithoutOptionalAttributesDeep()).WithSameMarks(val)
 			}
 
 			elems = append(elems, val)
@@ -544,7 +544,7 @@ func conversionMapToObject(mapType cty.Type, objType cty.Type, unsafe bool) conv
 			}
 
 			if val.IsNull() {
-				val = cty.NullVal(val.Type().WithoutOptionalAttributesDeep())
+				val = cty.NullVal(val.Type().WithoutOptionalAttributesDeep()).WithSameMarks(val)
 			}
 
 			elems[name.AsString()] = val
